@@ -65,14 +65,23 @@ theorem keysEq_reads (lk rk : List VExpr) (S : Col → Bool)
 
 theorem psound_inner_hash_join_swap : pstmt_inner_hash_join_swap := by
   intro es c lk rk L R hes hd hc hlk hrk
-  unfold hashjoin at *
+  have hl : hashjoin .inner c lk rk L R
+      = join .inner (fun ρ => some ((keysEq lk rk ρ == some true) && holds c ρ)) L R :=
+    hashjoin_unmasked .inner c lk rk L R hlk hrk
+  have hr : hashjoin .inner c rk lk R L
+      = join .inner (fun ρ => some ((keysEq rk lk ρ == some true) && holds c ρ)) R L :=
+    hashjoin_unmasked .inner c rk lk R L hrk hlk
+  rw [hl] at hes ⊢
+  rw [hr]
   have hsymm : (fun ρ => some ((keysEq rk lk ρ == some true) && holds c ρ))
       = (fun ρ => some ((keysEq lk rk ρ == some true) && holds c ρ)) := by
     funext ρ; rw [keysEq_comm]
   rw [hsymm]
   apply inner_join_swap_core es _ L R (by simpa [join] using hes) hd
   intro ρ ρ' h
-  have h1 := keysEq_reads lk rk _ hlk hrk ρ ρ' h
+  have h1 := keysEq_reads lk rk _
+    (fun e he ρ ρ' h => hlk e he ρ ρ' (fun x hx => h x (by simp [hx])))
+    (fun e he ρ ρ' h => hrk e he ρ ρ' (fun x hx => h x (by simp [hx]))) ρ ρ' h
   have h2 : holds c ρ = holds c ρ' := by unfold holds; rw [hc ρ ρ' h]
   simp [h1, h2]
 
